@@ -330,6 +330,70 @@ fn run_iter(text: &str, b: Budget, chunking: &Chunking, max_calls: usize) -> Opt
     Some((items, terminated, h))
 }
 
+// Recursive structures: an alias to the anchor that is still being deserialized is answered without
+// replaying anything. The counters of a mapping must not depend on whether its merge key stands before or
+// after such an alias.
+#[derive(serde::Deserialize, Debug)]
+#[allow(dead_code)]
+struct RFoo {
+    k1: String,
+    k2: String,
+    k3: serde_saphyr::RcRecursion<RFoo>,
+}
+#[derive(serde::Deserialize, Debug)]
+#[allow(dead_code)]
+struct ROuter {
+    foo: serde_saphyr::RcRecursive<RFoo>,
+}
+
+fn run_recursive(text: &str, b: Budget) -> Option<Run> {
+    let reports: Rc<RefCell<Vec<BudgetReport>>> = Rc::new(RefCell::new(Vec::new()));
+    let r2 = reports.clone();
+    let opts = options_with(b).with_budget_report(move |r| r2.borrow_mut().push(r));
+    let res = guard(|| serde_saphyr::from_str_with_options::<ROuter>(text, opts).map(|_| ())).ok()?;
+    Some(Run {
+        result: res.map_err(|e| breach_of(&e)),
+        reports: reports.borrow().clone(),
+    })
+}
+
+fn recursive_alias_probe(st: &mut Stats) -> Vec<(String, String)> {
+    let mut out = Vec::new();
+    let variants = [
+        ("merge key first", "foo: &a\n  <<: {k1: One, k2: Two}\n  k3: *a\n"),
+        ("merge key after the recursive alias", "foo: &a\n  k3: *a\n  <<: {k1: One, k2: Two}\n"),
+        ("merge key between", "foo: &a\n  k1: One\n  k3: *a\n  <<: {k2: Two}\n"),
+    ];
+    for (name, text) in variants {
+        let Some(r) = run_recursive(text, unlimited()) else { continue };
+        st.evals += 1;
+        st.bump("recursive_alias_probe");
+        if r.result.is_ok() {
+            match r.reports.first() {
+                Some(rep) if rep.merge_keys == 1 => {}
+                Some(rep) => out.push((
+                    "report-differs-from-model".to_string(),
+                    format!("{name} ({text:?}): one plain `<<` in key position, report says merge_keys = {}", rep.merge_keys),
+                )),
+                None => out.push(("report-callback-count".to_string(), format!("{name}: no report"))),
+            }
+        }
+        for (limit, must_pass) in [(1usize, true), (0, false)] {
+            let Some(r) = run_recursive(text, with_limit(Counter::MergeKeys, limit)) else { continue };
+            st.evals += 1;
+            match (&r.result, must_pass) {
+                (Ok(()), true) => {}
+                (Err(b), false) if b == "MergeKeys" => {}
+                (res, _) => out.push((
+                    if must_pass { "false-rejection" } else { "limit-not-enforced" }.to_string(),
+                    format!("{name} ({text:?}): max_merge_keys {limit} gives {res:?}"),
+                )),
+            }
+        }
+    }
+    out
+}
+
 pub fn exec(c: &BudgetCase, st: &mut Stats) -> Vec<Viol> {
     let mut out = Vec::new();
     let mk = |clause: &str, detail: String, counters: Vec<Counter>| Viol {
@@ -343,6 +407,12 @@ pub fn exec(c: &BudgetCase, st: &mut Stats) -> Vec<Viol> {
     };
     if c.docs.is_empty() || c.under_test >= c.docs.len() {
         return out;
+    }
+    // fixed probe, run with the smallest case of the enumeration
+    if c.docs.len() == 1 && c.docs[0] == "a: 1\n" {
+        for (clause, detail) in recursive_alias_probe(st) {
+            out.push(mk(&clause, detail, vec![Counter::MergeKeys]));
+        }
     }
     let d = &c.docs[c.under_test];
     let dtext = stream_text(std::slice::from_ref(d));
@@ -542,6 +612,30 @@ pub fn exec(c: &BudgetCase, st: &mut Stats) -> Vec<Viol> {
             // alias/anchor ratio heuristic
             let a = m_full.total.aliases;
             let an = m_full.total.anchors;
+            if a == 0 {
+                // no alias at all: `aliases > multiplier * anchors` cannot hold, whatever the thresholds
+                for (min_aliases, mult) in [(0usize, 0usize), (0, 1), (0, 10)] {
+                    #[allow(deprecated)]
+                    let b = {
+                        let mut b = unlimited();
+                        b.enforce_alias_anchor_ratio = true;
+                        b.alias_anchor_min_aliases = min_aliases;
+                        b.alias_anchor_ratio_multiplier = mult;
+                        b
+                    };
+                    if let Some(r) = run_str(&dtext, b, false) {
+                        st.evals += 1;
+                        st.bump("ratio_heuristic_runs");
+                        if r.result.is_err() {
+                            out.push(mk(
+                                "ratio-heuristic",
+                                format!("no aliases, {an} anchors, min_aliases {min_aliases}, multiplier {mult}: rejected with {:?}", r.result),
+                                vec![],
+                            ));
+                        }
+                    }
+                }
+            }
             if a > 0 {
                 let floor = if an > 0 { a / an } else { 1 };
                 let ceil = if an > 0 { a.div_ceil(an) } else { 1 };
@@ -636,6 +730,43 @@ pub fn exec(c: &BudgetCase, st: &mut Stats) -> Vec<Viol> {
         // item unless it is empty / null-like (the generator produces none of those)
         let pos = c.under_test;
         let per_doc = &m_full.per_doc[0];
+        // the alias/anchor ratio is one of the per-document quantities: a document over its ratio is an
+        // error item wherever it stands, a document within it is not affected by its neighbours
+        if per_doc.aliases > 0 && per_doc.anchors > 0 {
+            let (a, an) = (per_doc.aliases, per_doc.anchors);
+            for (mult, expect_breach) in [((a - 1) / an, true), (a.div_ceil(an), false)] {
+                #[allow(deprecated)]
+                let b = {
+                    let mut b = unlimited();
+                    b.enforce_alias_anchor_ratio = true;
+                    b.alias_anchor_min_aliases = 1;
+                    b.alias_anchor_ratio_multiplier = mult;
+                    b
+                };
+                let Some((a_items, a_term, _)) = run_iter(&alone_text, b.clone(), &c.chunking, 6) else { continue };
+                let Some((f_items, f_term, _)) = run_iter(&full_text, b, &c.chunking, full.len() + 4) else { continue };
+                st.evals += 2;
+                st.bump("fired.per_document_ratio_in_stream");
+                if !a_term || !f_term {
+                    continue;
+                }
+                // the history may contain documents that are over this ratio themselves: only the document
+                // under test alone (followed by the small tail document) is asserted exactly
+                let first = a_items.first().cloned();
+                let want_err = Err("AliasAnchorRatio".to_string());
+                let ok = if expect_breach { first == Some(want_err.clone()) } else { first == Some(Ok(())) && a_items.get(1) == Some(&Ok(())) };
+                if !ok {
+                    out.push(mk(
+                        "per-document-ratio",
+                        format!(
+                            "document with {a} aliases and {an} anchors, multiplier {mult} (breach expected: {expect_breach}): alone (+ tail document) the iterator yields {a_items:?}"
+                        ),
+                        vec![],
+                    ));
+                }
+                let _ = f_items;
+            }
+        }
         for &cn in &c.counters {
             if cn == Counter::Documents {
                 continue; // ignored under per-document enforcement
@@ -805,9 +936,9 @@ impl G<'_> {
                     let kk = self.k();
                     items.push(format!("{kk}: {}", self.word()));
                 }
-                // a quoted `<<` is an ordinary key, also when the mapping is replayed through an alias
+                // a quoted or tagged `<<` is an ordinary key, also when the mapping is replayed through an alias
                 if self.rng.chance(1, 4) {
-                    items.push(format!("{}: {}", self.rng.pick(&["\"<<\"", "'<<'"]), self.word()));
+                    items.push(format!("{}: {}", self.rng.pick(&["\"<<\"", "'<<'", "!!str << ", "! << "]), self.word()));
                 }
                 let a = self.new_anchor(true);
                 out.push_str(&format!("{pad}{k}: &{a} {{{}}}\n", items.join(", ")));
